@@ -932,3 +932,46 @@ func coqCase(cl cell, os []obsRec) string {
 	}
 	return fmt.Sprintf("(mkCase %s %s %s %s)", coqEnv(cl.Spec, cl.Proxy), env2, coqOps(cl.Ops), coqObs(os))
 }
+
+// scenarioInflightDial: a request that arrives while a QUIC dial to its authority is IN FLIGHT and then fails.
+// Origin A advertises HTTP/3 on the port of another origin B on the same host; the Alt-Svc goroutine dials B's
+// UDP port, where a socket nobody reads sits (the dial ends with quic-go's handshake timeout).  As soon as the
+// hook reports that dial in flight, an unforced request to B is made: HTTP/3 was never negotiated by B, so the
+// request belongs on TCP and must succeed there (the cached-connection probe of the HTTP/3 round tripper joins
+// the dial, and a dial that fails is no cached connection).  Oracle only (Alt-Svc to another port is outside the
+// per-authority model).
+func scenarioInflightDial(p *pki) (fail *violation, note string) {
+	b, err := startOrigin(p, companionSpec)
+	if err != nil {
+		return nil, "scenario inflight-h3-dial: " + err.Error()
+	}
+	defer b.close()
+	a, err := startOrigin(p, srvSpec{Name: "tls-h2h1-advertises-other-port", HTTPS: true, ALPN: []string{"h2", "http/1.1"}, AltSvc: true})
+	if err != nil {
+		return nil, "scenario inflight-h3-dial: " + err.Error()
+	}
+	defer a.close()
+	a.altPort = b.port
+	c := req.C().SetTimeout(40 * time.Second).SetRootCertFromString(p.cas[1].pem)
+	c.EnableHTTP3()
+	defer func() {
+		c.GetTransport().CloseIdleConnections()
+		c.GetTransport().VerifCloseHTTP3()
+	}()
+	if _, err := c.R().Get(a.url()); err != nil {
+		return nil, "scenario inflight-h3-dial: first request failed: " + err.Error()
+	}
+	ub, _ := url.Parse(b.url())
+	if !waitFor(5*time.Second, func() bool { return c.GetTransport().VerifH3DialState(ub) == "dialing" }) {
+		return nil, "scenario inflight-h3-dial: the Alt-Svc dial to the other port was not seen in flight (state " + c.GetTransport().VerifH3DialState(ub) + ")"
+	}
+	resp, err := c.R().Get(b.url())
+	if err != nil {
+		return &violation{Sig: "unforced-request-failed-on-inflight-h3-dial/" + classify(err),
+			What: "nothing forced; an Alt-Svc QUIC dial to the request's host:port (advertised by another origin on the same host) was in flight and then failed; the origin never negotiated HTTP/3 and serves TCP, yet the request failed: " + err.Error()}, ""
+	}
+	if resp.Proto == "HTTP/3.0" {
+		return &violation{Sig: "unoffered-h3/inflight-dial", What: "HTTP/3 used although the origin has no QUIC listener"}, ""
+	}
+	return nil, "scenario inflight-h3-dial: request served over " + resp.Proto + " after the in-flight QUIC dial failed"
+}
